@@ -147,7 +147,11 @@ func (g *pgen) atom(join bool) string {
 		if g.r.chance(1, 8) {
 			return g.name() + "." + pick(g.r, []string{"$left", "$right"})
 		}
-		return g.name() + g.osep() + "." + g.osep() + g.name()
+		q := g.name() + g.osep() + "." + g.osep() + g.name()
+		for g.r.chance(1, 3) { // longer dotted names: a.b.c, a.b.c.d, ...
+			q += g.osep() + "." + g.osep() + g.name()
+		}
+		return q
 	case 6:
 		return g.number()
 	default:
